@@ -421,7 +421,10 @@ def run_deductive(rep, modules, only=None):
             descs.append(("lemma", name, None))
     for fq, c in reg.contracts.items():
         if c.sidecar in modnames and not c.trusted and (only is None or c.short in only):
-            if c.split_on:
+            if getattr(c, "arg_cases", None):
+                for i in range(len(c.arg_cases)):
+                    descs.append(("function", fq, {"__case__": i}))
+            elif c.split_on:
                 import itertools
 
                 for combo in itertools.product(*[c.str_domains[p] for p in c.split_on]):
